@@ -147,6 +147,7 @@ Candidates(i) ==
               g, (5 * i + j) % 26),
         Circle(InfoPat(<<59, 63, 0, 24, 32>>, i, j), g),
         TextR(InfoPat(<<91, 123, 95, 0, 24, 64, 99, 4>>, i, j), g, i + j),
+        TextR(123, g, 2 * (i + j)),                      \* text string number 0, explicit everything
         Place17(InfoPat(<<176, 240, 184, 0, 48, 183, 245, 8, 179>>, i, j), g, i + j),
         Place18(InfoPat(<<182, 246, 190, 0, 180, 178, 55, 6>>, i, j), g, i + j,
                 Pick(<<0, 4, 6, 7, 1>>, i + j), Pick(<<7, 0, 6, 4>>, i + 2 * j), Pick(<<2, 1, 2>>, i + j), Pick(<<90, 45, 90, 1>>, i + j)),
@@ -198,7 +199,10 @@ Configs ==
     ELSE [unit : {RealEnc(1000, 0)}, offs_in_end : {TRUE}, scheme : {0},
           cb : {<<0, 0, 0>>, <<2, 2, 99>>},
           salt : Salts,
-          prefix : {<< <<14>> \o EStr(NameStr(0)) >>, << <<13, 1>>, <<16>> >>}]
+          \* third prefix: a TEXTSTRING whose property gives its name and a value by reference number,
+          \* then a cell: labels that use the string by number inherit that property
+          prefix : {<< <<14>> \o EStr(NameStr(0)) >>, << <<13, 1>>, <<16>> >>,
+                    << <<5>> \o EStr(TextStr(0)), <<28, 38, 0>> \o <<12>> \o EStr(<<110>>) \o <<14, 1>>, <<14>> \o EStr(NameStr(0)) >>}]
 RECURSIVE RunChunks(_, _, _)
 RunChunks(s, chunks, i) ==
     IF i > Len(chunks) THEN s
